@@ -487,7 +487,9 @@ def check_reject(sim):
         fmt = r.get("NodeFormat", "")
         if fmt not in KNOWN:
             why = "unknown node format %r" % fmt
-        elif r.get("Link") is not None:
+        elif r.get("Link") is not None and sim.opts.get("cache", "none") == "none":
+            # with a node cache the top node may legitimately be served from the cache without being read
+            # and decoded again, so expectations about the stored bytes apply to cache-less loads only
             link = r["Link"]
             b = topb
             if b is None:
